@@ -412,7 +412,7 @@ func (a *AdvClient) Handshake(addr string) AdvResult {
 		cfg.GetClientCertificate = func(*tls.CertificateRequestInfo) (*tls.Certificate, error) { return cert, nil }
 	}
 	tc := tls.Client(c, cfg)
-	_ = raw.SetDeadline(time.Now().Add(15 * time.Second))
+	_ = raw.SetDeadline(time.Now().Add(6 * time.Second))
 	if err := tc.Handshake(); err != nil {
 		_ = raw.Close()
 		res.Err = err
